@@ -26,13 +26,17 @@ def native(prop, spec, tier, seed, v, binname=None, hooks=True, lane="native", e
 
 
 def on_crash(prop, spec, tier, seed, e):
-    """A monitor process died (signal / abort) instead of reporting. Every monitor catches panics per
-    case, so this is either a broken monitor or memory corruption in the code under test; only the
-    properties about memory safety (C16, C17) read it as a violation, the rest say INCONCLUSIVE."""
-    if spec.get("crash_is_violation"):
+    """A monitor process died instead of reporting. Every monitor catches panics per case, so
+    * exit code 101 (a Rust panic that escaped the per-case capture: the code under test panicked in a
+      place where the unchanged tree never does, or an oracle's own invariant about the API broke) is a
+      violation for every property, signature `<ID>/panic-outside-case`;
+    * death by signal / abort is a violation only for the memory-safety properties (C16, C17) and
+      INCONCLUSIVE for the others."""
+    if e.rc == 101 or spec.get("crash_is_violation"):
         v = C.Verdict(prop, tier, seed, spec["level"], spec["rule"], spec["assumptions"], spec["technique"])
         v.evaluations, v.distinct_extra = 1, 2
-        v.add_violation(f"{prop}/crash/rc={e.rc}", str(e), "native")
+        sig = f"{prop}/panic-outside-case" if e.rc == 101 else f"{prop}/crash/rc={e.rc}"
+        v.add_violation(sig, str(e), "native")
         return v.finish()
     return C.inconclusive_exit(prop, tier, seed, spec["level"], str(e))
 
